@@ -100,6 +100,38 @@ def corpus_strings(ctx):
                     continue
                 w[rnd.choice(nums)] = rnd.choice(["0", "1", "-2.5", "1e21", "3"])
             cases.append(dict(text=" ".join(w), corpus=True, weak=True))
+    # byte-level layer ("for any input string"): bytes inserted, deleted, replaced or duplicated anywhere in a corpus string
+    # (control bytes, NUL, high bytes and multi-byte runes, signs, dots, exponent letters, parentheses), and the numerals on
+    # which lexers differ put in place of a number. Decided like the other strings: by the harness's own tokens when it
+    # knows every word, else by the real lexer's tokens (verdict / totality / stability only).
+    edge = ["1e999", "-1e999", "1e-999", ".5", "5.", "-.5", "1.e3", "1e+3", "1E3", "--1", "1e", "e1", "0x10", "1_000", "Inf", "NaN", "+1",
+            "1..2", "1-2", "\u0661\u0662", "1\u00a02", "00012", "-0", "1e0e0", "9007199254740993", "0.1e-320"]
+    alphabet = ["\x00", "\x01", "\x7f", "\xc3", "\u00e9", "\u2028", "\ufeff", " ", "\t", "\n", "\r", "(", ")", ",", "+", "-", ".", "e", "E", "Z", "M", "0", "9", "#", "'"]
+    nb = 0
+    for s in strs:
+        for _ in range(2 if ctx.quick else 12):
+            m = rnd.randrange(5)
+            if not s:
+                continue
+            k = rnd.randrange(len(s))
+            if m == 0:
+                t = s[:k] + rnd.choice(alphabet) + s[k:]
+            elif m == 1:
+                t = s[:k] + s[k + 1:]
+            elif m == 2:
+                t = s[:k] + rnd.choice(alphabet) + s[k + 1:]
+            elif m == 3:
+                j = min(len(s), k + rnd.randrange(1, 6))
+                t = s[:j] + s[k:j] + s[j:]
+            else:
+                nums = list(re.finditer(r"-?[0-9][0-9.]*(e-?[0-9]+)?", s, re.I))
+                if not nums:
+                    continue
+                mm = rnd.choice(nums)
+                t = s[:mm.start()] + rnd.choice(edge) + s[mm.end():]
+            cases.append(dict(text=t, corpus=True, weak=True))
+            nb += 1
+    ctx.coverage_extra.setdefault("model_a", []).append(dict(cfg="byte-level mutations of corpus strings", strings=nb))
     ctx.coverage_extra.setdefault("model_a", []).append(dict(cfg="corpus of the library's own tests (hook begin event)",
                                                              harvested=len(strs), strings=len(cases), tests_passed=p.returncode == 0))
     return cases
